@@ -15,6 +15,7 @@ class Check:
     stub_components = []
     assumptions = []
     exhaustive = {}
+    env_warnings_as_errors = False  # a sixth of the runs execute with warnings turned into errors (simulation checks opt in)
 
     def preload(self):
         """import the library modules used (template process: imports only, no calls)"""
